@@ -245,7 +245,7 @@ _actions = {
 
 def _is_int(s):
     try:
-        int(s)
+        model.plain_int(s)
         return True
     except ValueError:
         return False
